@@ -42,12 +42,16 @@ pub fn job_source(j: usize) -> String {
         9 => "#stage(macro)\nfn thrice() {\n  `{ 3.0 }\n}\n#stage(main)\nfn flat(x) {\n  let (p0, q0) = (x, 2.0)\n  let (p1, q1) = (q0, p0)\n  p1 * 10.0 + q1\n}\nfn dsp(x) {\n  flat(x) * thrice!()\n}\n".into(),
         11 => format!("include(\"{}/c19_shared.mmm\")\nfn dsp(x) {{\n  shared_gain(x)\n}}\n", crate::incfiles::ensure().to_string_lossy()),
         12 => format!("include(\"{}/c19_shared.mmm\")\nfn dsp(x) {{\n  shared_gain(x) + inner_f3(x)\n}}\n", crate::incfiles::ensure().to_string_lossy()),
+        // module-local type aliases of the same unqualified name in differently named modules (resolved through the
+        // mangled-suffix fallback), with different meanings
+        13 => "mod synth {\n  pub type alias Pair = (float, float)\n  pub fn mix(p: Pair) -> float {\n    p.0 + p.1\n  }\n}\nfn dsp(x) {\n  synth::mix((x, 2.0))\n}\n".into(),
+        14 => "mod filt {\n  pub type alias Pair = (float, (float, float))\n  pub fn diff(p: Pair) -> float {\n    let (a, (b, c)) = p\n    a - b + c\n  }\n}\nfn dsp(x) {\n  filt::diff((5.0, (x, 1.0)))\n}\n".into(),
         10 => "use osc::sinwave\nuse math::*\nfn dsp(x) {\n  sinwave(440.0, 0.0) * 0.5 + x * PI()\n}\n".into(),
         _ => "type Dir = Up | Down | Left(float)\ntype alias Pt = {px:float, py:float}\nfn f(d: Dir) {\n  match d {\n    Up => 1.0,\n    Down => 2.0,\n    Left(v) => v\n  }\n}\nfn norm(p: Pt) {\n  p.px * p.px + p.py\n}\nfn dsp(x) {\n  f(Left(x)) + norm({px = x, py = 2.0}) + min(x, 1.0) + sqrt(abs(x))\n}\n".into(),
     }
 }
-pub const JOB_NAMES: [&str; 13] = ["counter", "counter_again", "shared_identifiers", "syntax_error", "type_error", "macro", "huge_identifier", "types_and_builtins", "macro_nested_tuple_let", "macro_flat_tuple_let", "library_modules", "include_shared_file", "include_shared_file_again"];
-pub const NJOBS: usize = 13;
+pub const JOB_NAMES: [&str; 15] = ["counter", "counter_again", "shared_identifiers", "syntax_error", "type_error", "macro", "huge_identifier", "types_and_builtins", "macro_nested_tuple_let", "macro_flat_tuple_let", "library_modules", "include_shared_file", "include_shared_file_again", "module_type_alias_pair_a", "module_type_alias_pair_b"];
+pub const NJOBS: usize = 15;
 
 /// what a job observes: diagnostics or outputs (and the WASM module hash)
 pub fn run_job(j: usize) -> String {
@@ -288,7 +292,7 @@ fn pairs(tier: Tier) -> Vec<(usize, usize)> {
         for b in a..NJOBS {
             // quick: every job against the counter job, neighbours in the menu, and the library job against itself;
             // the long staging / library jobs are paired with the counter job only in the thorough tier
-            if tier == Tier::Quick && (!(a == 0 || b == a + 1 || (a, b) == (10, 10)) || [(0, 5), (0, 8), (0, 9), (9, 10), (0, 11), (0, 12), (10, 11)].contains(&(a, b))) {
+            if tier == Tier::Quick && (!(a == 0 || b == a + 1 || (a, b) == (10, 10)) || [(0, 5), (0, 8), (0, 9), (9, 10), (0, 11), (0, 12), (10, 11), (0, 13), (0, 14), (12, 13)].contains(&(a, b))) {
                 continue;
             }
             v.push((a, b));
@@ -441,7 +445,7 @@ impl Prop for C19 {
         let s = solo();
         Descr {
             rule: format!(
-                "K = 2 threads each run one job 'compile with ExecContext + run 4 samples on the VM + emit WASM (+ render diagnostics)' from a menu of {NJOBS} sources built to collide (identical sources, shared identifiers, a syntax error, a type error, a macro program (stage-0 VM + MIMIUM_CURRENT_MACRO_FILE), a 64 KiB identifier that forces the interner buffer to grow, types/enums/builtins, two macro programs whose main-stage code goes through the staging translation with a nested resp. flat tuple let, a program that imports library modules from files (`use osc::sinwave`, `use math::*`, found through MIMIUM_LIB_PATH = the repository's lib directory), two programs that `include` the same file, which in turn includes a 40-function file); job pairs: {:?}. Scheduling points measured per job (solo): {:?}. A hand-rolled baton scheduler lets a thread lose control only at a scheduling point placed before every with_session_globals / env-var / file-cache access. Explored: bound 0 (both serial orders); bound 1: one preemption at every {}scheduling point of either thread; bound 2 on job pairs under 8000 points each (the first thread is preempted, the second runs a part, the first finishes, the second finishes): thorough at every 97th point of the second thread for every 16th first point, quick at 24 points of the second thread for every 8th explored first point. Each schedule: both jobs' observations must equal their solo observations; a silent partner for 20 s is a deadlock. states/traces = schedules executed; transitions = scheduling points passed.",
+                "K = 2 threads each run one job 'compile with ExecContext + run 4 samples on the VM + emit WASM (+ render diagnostics)' from a menu of {NJOBS} sources built to collide (identical sources, shared identifiers, a syntax error, a type error, a macro program (stage-0 VM + MIMIUM_CURRENT_MACRO_FILE), a 64 KiB identifier that forces the interner buffer to grow, types/enums/builtins, two macro programs whose main-stage code goes through the staging translation with a nested resp. flat tuple let, a program that imports library modules from files (`use osc::sinwave`, `use math::*`, found through MIMIUM_LIB_PATH = the repository's lib directory), two programs that `include` the same file, which in turn includes a 40-function file, two programs whose differently named modules each declare a type alias `Pair` with another meaning and use it unqualified); job pairs: {:?}. Scheduling points measured per job (solo): {:?}. A hand-rolled baton scheduler lets a thread lose control only at a scheduling point placed before every with_session_globals / env-var / file-cache access. Explored: bound 0 (both serial orders); bound 1: one preemption at every {}scheduling point of either thread; bound 2 on job pairs under 8000 points each (the first thread is preempted, the second runs a part, the first finishes, the second finishes): thorough at every 97th point of the second thread for every 16th first point, quick at 24 points of the second thread for every 8th explored first point. Each schedule: both jobs' observations must equal their solo observations; a silent partner for 20 s is a deadlock. states/traces = schedules executed; transitions = scheduling points passed.",
                 pairs(tier).iter().map(|(a, b)| format!("{}+{}", JOB_NAMES[*a], JOB_NAMES[*b])).collect::<Vec<_>>(),
                 s.iter().map(|x| x.1).collect::<Vec<_>>(),
                 if tier == Tier::Quick { "s-th (s = 16, or more for long jobs so that a pair has at most ~2400 schedules; per-pair values in bounds.stride_per_pair) " } else { "" }
